@@ -168,12 +168,12 @@ Proof.
     assert (Hl1 : ts_last st1 <> None).
     { assert (st1 = fst (write_element beh st e)) by (rewrite E1; reflexivity).
       subst st1. unfold write_element. cbn [fst].
-      destruct (advance_other (set_last st (Some e))) as (_ & Ala & _). rewrite Ala. cbn. discriminate. }
+      destruct (advance_other (set_last st (Some e)) (eg e)) as (_ & Ala & _). rewrite Ala. cbn. discriminate. }
     assert (Hsz1 : ts_size st1 = ts_size st /\ ts_cur st1 = adv (fst (ts_size st)) (ts_cur st)).
     { assert (st1 = fst (write_element beh st e)) by (rewrite E1; reflexivity).
       subst st1. unfold write_element. cbn [fst].
-      destruct (advance_other (set_last st (Some e))) as (Asz & _). split; [exact Asz|].
-      rewrite advance_cur. reflexivity. }
+      destruct (advance_other (set_last st (Some e)) (eg e)) as (Asz & _). split; [exact Asz|].
+      rewrite advance_cur by (apply displayable_not_control; unfold wf_elem in He; apply andb_prop in He as [He _]; apply andb_prop in He as [He _]; exact He). reflexivity. }
     destruct Hsz1 as [Hsz1 Hcur1].
     specialize (IH st1 (vt_execs cfg v c1) S1 Hl1 Hes). cbv zeta in IH.
     destruct (write_elements beh st1 es) as [st2 c2] eqn:E2. cbn [fst snd] in IH |- *.
